@@ -42,6 +42,8 @@ Definition validate_prop (expected_len : nat) (pmd : list (string * pmeta)) (kv 
             (if pm_varlength pm then
                let! d := expect_array node path_DATA in
                let! _ := guard (dtype_eqb (a_dt v) DU64) in
+               let! _ := guard (Nat.eqb (ndim v) 2) in
+               let! _ := guard (Nat.eqb (ndim d) 1) in
                guard (dtype_eqb (a_dt d) (pm_dtype pm))
              else
                let! _ := guard (dtype_eqb (a_dt v) (pm_dtype pm)) in
@@ -137,7 +139,8 @@ Definition prop_conformant (len : nat) (pm : pmeta) (pg : znode) : Prop :=
   (exists v, alookup path_VALUES ch = Some (ZA v) /\
      (exists n rest, a_shape v = n :: rest /\ n = len) /\
      (if pm_varlength pm
-      then a_dt v = DU64 /\ exists d, alookup path_DATA ch = Some (ZA d) /\ a_dt d = pm_dtype pm
+      then a_dt v = DU64 /\ (exists n w, a_shape v = [n; w]) /\
+           exists d, alookup path_DATA ch = Some (ZA d) /\ a_dt d = pm_dtype pm /\ (exists k, a_shape d = [k])
       else a_dt v = pm_dtype pm /\ alookup path_DATA ch = None)) /\
   (alookup path_MISSING ch = None \/
    exists m, alookup path_MISSING ch = Some (ZA m) /\ a_shape m = [len] /\ a_dt m = DBool).
